@@ -75,6 +75,10 @@ class ExprMixin:
 
     def global_value(self, path):
         """Value of a qualified global: contract function, external, enum member, module constant."""
+        if path == "typing.Any" and not self.st.spec_mode and getattr(self.contract, "any_only_if", None) and not self._const_stack:
+            # C05 inventory: every place where the verified body produces the literal Any, with its path condition
+            self.oblige("post:any-literal@%d" % self.cur_line, as_bool(self.spec_eval(self.contract.any_only_if, dict(self.entry_env), clean=False)), self.cur_line,
+                        clause="the literal Any is produced only if: " + self.contract.any_only_if)
         if path in R.EXTERNALS and not isinstance(R.EXTERNALS[path], R.ExtFn):
             v = R.EXTERNALS[path]
             return v(self) if callable(v) else v
